@@ -58,6 +58,14 @@ def rotations():
 ROTS = rotations()
 
 
+_ROT_ID = {m: i for i, (m, _a) in enumerate(ROTS)}
+
+
+def compose(qi, ri):
+    """1-based id of the global rotation parent(qi) * local(ri) (glue: window sizes, bare regions)."""
+    return _ROT_ID[_mm(ROTS[qi - 1][0], ROTS[ri - 1][0])] + 1
+
+
 def rot_angles(ri):
     y, p, r = ROTS[ri][1]
     return y * math.pi / 2, p * math.pi / 2, r * math.pi / 2
@@ -143,6 +151,7 @@ CAT_INDEX = {e["name"]: i + 1 for i, e in enumerate(CAT)}  # 1-based ids, as in 
 SMALL = [CAT_INDEX[n] for n in ("cube", "bar", "brick", "barM", "cube2", "L", "Lwide", "tripod", "U", "twin", "twinL")]
 LARGE = [CAT_INDEX[n] for n in ("big", "bigL")]
 BOXES = [CAT_INDEX[n] for n in ("cube", "bar", "brick", "cube2", "big")]
+TILTABLE = [CAT_INDEX[n] for n in ("bar", "brick", "bar", "brick", "big")]  # BoxShapes that a tilt changes
 ROOMS = [CAT_INDEX[n] for n in ("big", "bigL", "room", "roomL")]
 
 # rectilinear polygon footprints: interior-disjoint rectangles ((x0,y0),(x1,y1)) in units
@@ -229,13 +238,17 @@ def real_pos(p):
     return tuple(v / S for v in p)
 
 
-def make_object(si, ri, pos, **props):
-    """Real scenic Object for catalogue id si (1-based), rotation index ri (1-based), position x4."""
+def make_object(si, ri, pos, qi=1, **props):
+    """Real scenic Object for catalogue id si (1-based), local rotation index ri (1-based: the
+    object's own yaw / pitch / roll), position x4, parent rotation index qi (parentOrientation)."""
     from scenic.core.object_types import Object
+    from scenic.core.vectors import Orientation
 
     e = CAT[si - 1]
     yaw, pitch, roll = rot_angles(ri - 1)
     w, l, h = e["dims"]
+    if qi != 1:
+        props["parentOrientation"] = Orientation.fromEuler(*rot_angles(qi - 1))
     return Object._with(
         position=real_pos(pos), shape=real_shape(e), width=w, length=l, height=h,
         yaw=yaw, pitch=pitch, roll=roll, **props,
@@ -319,12 +332,28 @@ def random_pair_cases(rng, n, start_id=1):
             ra, rb = rng.choice(planar), rng.randrange(1, 25)
         else:
             ra, rb = rng.randrange(1, 25), rng.randrange(1, 25)
-        nested = rng.random() < 0.15
+        qa = qb = 1
+        u0 = rng.random()
+        if u0 < 0.14:
+            # tilt that comes ONLY from the parent frame: local pitch = roll = 0 (a yaw), non-planar
+            # parentOrientation; against planar boxes and other solids tilted the same way
+            a = rng.choice(TILTABLE)
+            ra, qa = rng.choice(planar), rng.randrange(5, 25)
+            v = rng.random()
+            if v < 0.5:
+                b, rb, qb = rng.choice(BOXES), rng.choice(planar), 1
+            elif v < 0.8:
+                b, rb, qb = rng.choice(TILTABLE), rng.choice(planar), rng.randrange(5, 25)
+            else:
+                b, rb, qb = rng.choice(SMALL), rng.randrange(1, 25), 1
+            if rng.random() < 0.5:
+                a, ra, qa, b, rb, qb = b, rb, qb, a, ra, qa
+        nested = u0 >= 0.14 and rng.random() < 0.15
         if nested:  # a small solid inside / across a large one: nesting without surface contact
             a, b = rng.choice(ROOMS), rng.choice(SMALL)
             if rng.random() < 0.5:
                 a, b, ra, rb = b, a, rb, ra
-        sa, sb = _span(a, ra), _span(b, rb)
+        sa, sb = _span(a, compose(qa, ra)), _span(b, compose(qb, rb))
         pa = [_even(rng.randint(-8, 8)) for _ in range(3)]
         pb = []
         for i in range(3):
@@ -339,12 +368,12 @@ def random_pair_cases(rng, n, start_id=1):
             else:
                 d = rng.randint(-int(reach) - 8, int(reach) + 8)
             pb.append(pa[i] + _even(d))
-        if mode < 0.3 and rng.random() < 0.4:
+        if (mode < 0.3 or u0 < 0.14) and rng.random() < 0.4:
             pb[2] = pa[2]  # same height: the 2-D fast path of minimumDistanceTo
         proc = "isect" if rng.random() < 0.7 else "dist"
         api = "obj" if (proc == "dist" or rng.random() < 0.7) else "reg"
-        cases.append({"id": start_id + k, "proc": proc, "api": api, "a": a, "ra": ra, "pa": pa,
-                      "b": b, "rb": rb, "pb": pb, "poly": 0})
+        cases.append({"id": start_id + k, "proc": proc, "api": api, "a": a, "qa": qa, "ra": ra, "pa": pa,
+                      "b": b, "qb": qb, "rb": rb, "pb": pb, "poly": 0})
     return cases
 
 
@@ -354,7 +383,10 @@ def random_cont_cases(rng, n, start_id=1):
     for k in range(n):
         b = rng.choice(SMALL)
         rb = rng.randrange(1, 25)
-        sb = _span(b, rb)
+        qb = 1
+        if rng.random() < 0.2:  # a box tilted only through its parent frame
+            b, rb, qb = rng.choice(TILTABLE[:4]), rng.choice((1, 2, 3, 4)), rng.randrange(5, 25)
+        sb = _span(b, compose(qb, rb))
         if rng.random() < 0.65:
             a = rng.choice(ROOMS)
             ra = rng.randrange(1, 25) if rng.random() < 0.5 else rng.choice((1, 2, 3, 4))
@@ -369,11 +401,11 @@ def random_cont_cases(rng, n, start_id=1):
                 else:
                     d = rng.randint(-int(sa[i] + sb[i]) - 4, int(sa[i] + sb[i]) + 4)
                 pb.append(pa[i] + _even(d))
-            cases.append({"id": start_id + k, "proc": "cont", "api": "reg", "a": a, "ra": ra, "pa": pa,
-                          "b": b, "rb": rb, "pb": pb, "poly": 0})
+            cases.append({"id": start_id + k, "proc": "cont", "api": "reg", "a": a, "qa": 1, "ra": ra, "pa": pa,
+                          "b": b, "qb": qb, "rb": rb, "pb": pb, "poly": 0})
         else:
             pi = rng.randrange(1, len(POLYS) + 1)
             pb = [_even(rng.randint(-14, 14)), _even(rng.randint(-14, 14)), _even(rng.randint(-20, 20))]
-            cases.append({"id": start_id + k, "proc": "foot", "api": "reg", "a": 1, "ra": 1, "pa": [0, 0, 0],
-                          "b": b, "rb": rb, "pb": pb, "poly": pi})
+            cases.append({"id": start_id + k, "proc": "foot", "api": "reg", "a": 1, "qa": 1, "ra": 1, "pa": [0, 0, 0],
+                          "b": b, "qb": qb, "rb": rb, "pb": pb, "poly": pi})
     return cases
